@@ -829,15 +829,19 @@ bool qstr_is_ip4addr(const char *str) {
 
     char *s1, *s2;
     int periodcnt;
-    for (s1 = dupstr, periodcnt = 0; (s2 = strchr(s1, '.')) != NULL;
-            s1 = s2 + 1, periodcnt++) {
-        *s2 = '\0';
+    for (s1 = dupstr, periodcnt = 0; ; s1 = s2 + 1, periodcnt++) {
+        /* the part behind the last period is checked like the others */
+        if ((s2 = strchr(s1, '.')) != NULL)
+            *s2 = '\0';
 
         int n;
         if (qstrtest(isdigit, s1) == false || (n = atoi(s1)) <= 0 || n >= 256) {
             free(dupstr);
             return false;
         }
+
+        if (s2 == NULL)
+            break;
     }
 
     free(dupstr);
